@@ -223,7 +223,7 @@ fn text_string(rng: &mut Rng) -> Value {
 }
 
 /// A random text component in its JSON form: string, boolean, integer, nested compound and
-/// (homogeneous) list values.
+/// list values (also of mixed element kinds).
 fn random_component(rng: &mut Rng, depth: usize) -> Value {
     let mut m = Map::new();
     if rng.chance(3, 4) {
@@ -250,7 +250,8 @@ fn random_component(rng: &mut Rng, depth: usize) -> Value {
             }
             5 | 6 if depth < 3 => {
                 let n = 1 + rng.usize_below(3);
-                m.insert("extra".into(), Value::Array((0..n).map(|_| random_component(rng, depth + 1)).collect()));
+                // styled parts, and now and then a bare string between them
+                m.insert("extra".into(), Value::Array((0..n).map(|_| if rng.chance(1, 4) { text_string(rng) } else { random_component(rng, depth + 1) }).collect()));
             }
             7 => {
                 let n = rng.usize_below(4);
@@ -289,6 +290,14 @@ fn texts(rng: &mut Rng, cfg: &Cfg) -> Vec<Value> {
     out.push(json!({"json": {"text": "Grüße 世界 €", "italic": false, "shadow_color": -16777216}}));
     out.push(json!({"json": {"text": "t", "click_event": {"action": "open_url", "url": "https://example.org"}, "hover_event": {"action": "show_text", "value": {"text": "h"}}}}));
     out.push(json!({"json": {"text": "x", "with": []}}));
+    // lists whose elements are of different kinds (plain strings beside styled parts are what people
+    // write by hand), numbers beside strings, a field that is null
+    out.push(json!({"json": {"text": "No server. ", "extra": ["Try again ", {"text": "later", "bold": true}]}}));
+    out.push(json!({"json": {"text": "", "extra": [{"text": "Banned by ", "color": "gray"}, "Admin", {"text": "!"}, " (appeal at example.org)"]}}));
+    out.push(json!({"json": {"translate": "chat.type.text", "with": ["Steve", 5, {"text": "x"}]}}));
+    out.push(json!({"json": {"text": "nested", "extra": [{"text": "a", "extra": ["b", {"text": "c"}]}]}}));
+    out.push(json!({"json": {"text": "no colour", "color": null}}));
+    out.push(json!({"json": {"text": "wrapper-looking", "extra": [{"": "x"}, "y"]}}));
     out.push(json!({"json": {"text": rep('x', cfg.cap(60000))}}));
     out.push(json!({"json": {"text": rep('€', cfg.cap(60000) / 3), "extra": [{"text": rep('é', 300)}]}}));
     for _ in 0..cfg.few(if cfg.thorough { 60 } else { 20 }) {
